@@ -111,6 +111,10 @@ def run(ctx):
         r.check('outcome-rows', n == 8, site, built=n, expected=8)
         r.check('counter-starts-at-zero', all('let $m0 = 0' in x.effects for x in rows), site)
 
+    with ctx.rule('R06.6', 'phase boundary at a frame boundary, not at a read boundary: frames behind OpenOk go to the established connection', floor=4) as r:
+        A.include(ctx, r, 'c16', 'R16.8')
+        A.include(ctx, r, 'c16', 'R16.1', pick=('behind-open-ok',))
+
     with ctx.rule('R06.5', 'single reader, single buffer for the whole connection', floor=4) as r:
         A.unique_callers(ctx, r, 'read_from:callers', 'frame_buffer::FrameBuffer::read_from', ['io_loop::Inner::read_from_stream'])
         A.unique_callers(ctx, r, 'Inner::read_from:callers', RF, ['frame_buffer::FrameBuffer::read_from'])
